@@ -605,7 +605,7 @@ func grpcDecodeTimeout(timeout string) (time.Duration, error) {
 	if num > 99999999 { // timeout must be ASCII string of at most 8 digits
 		return 0, protocolError("timeout %q is too long", timeout)
 	}
-	const grpcTimeoutMaxHours = 8
+	const grpcTimeoutMaxHours = math.MaxInt64 / int64(time.Hour) // about 293 years
 	if unit == time.Hour && num > grpcTimeoutMaxHours {
 		// Timeout is effectively unbounded, so ignore it. The grpc-go
 		// implementation does the same thing.
